@@ -350,7 +350,7 @@ const (
 	H3 = "h3.io" // registry 3: never configured by name
 )
 
-var secrets = []string{"tok1", "tok2", "tok3", "tok4", "tok5", "tok6", "tok7", "pwA", "pwB", "pwD", "pwA2"}
+var secrets = []string{"tok1", "tok2", "tok3", "tok4", "tok5", "tok6", "tok7", "tok8", "pwA", "pwB", "pwD", "pwA2"}
 
 // structuredSentences builds every comma-joined list of 1..k entry forms (plus the empty string).
 func structuredSentences(forms []string, k int) []string {
@@ -862,7 +862,7 @@ func substitute(s string, t *trio) string {
 
 func (c *checker) e2eSpace(k, netrcLen int) {
 	r := c.r
-	forms := []string{"tok1@{1}", "tok2@{2}", "tok3@{1}", "tok4", "", "tok5@", "@{1}", "tok6@{1}@{2}", "tok7@{3}"}
+	forms := []string{"tok1@{1}", "tok2@{2}", "tok3@{1}", "tok4", "", "tok5@", "@{1}", "tok6@{1}@{2}", "tok7@{3}", "tok8:x@{2}"}
 	sentences := structuredSentences(forms, k)
 	templates := []NEntry{
 		{Name: "{1}", Login: "l1", Password: "pwA"},
@@ -1019,9 +1019,13 @@ func run(r *evid.Run) {
 		"clients made first and called in several orders. F: every interleaving (explicit enumeration of all step orders, one logical thread running at a time) of 2 threads x 3..4 steps / 3 threads x 3 (quick) or 4 (thorough) steps, " +
 		"each thread = connectclient.Make for one of 3 hosts from ONE shared Config (parked inside the stub factory before the client is constructed, and after), then one request (parked inside the transport), " +
 		"over BUF_TOKEN sentences x netrc files x host multisets x 3 Config constructions (bufcli.NewConnectClientConfig, NewConnectClientConfigWithToken, NewConfig with a spare-capacity interceptor slice). E: sentence templates x netrc files x 3 loopback registries through `buf registry whoami`. " +
+		"G: the .netrc file as state: every history of <= d operations {PutMachines(h), PutMachines(h,h'), DeleteMachineForName(h) | h in 3 hosts} from every initial file (absent, empty, ordered selections of machine/default entries, 3 layouts, HOME/NETRC), " +
+		"walked depth first on the real code with the bytes buf wrote carried from step to step, every host of a 6-host menu looked up after EVERY step against the reference model of the file; " +
+		"G2: the same through `buf registry login --token-stdin` / `logout` / `whoami` against 3 loopback registries. " +
 		"A case is distinct/non-trivial when its configuration binds at least one token, or is malformed but contains a well-formed token@host part.")
 	r.Assume("hosts are compared as exact strings (the property's anchor says exact-match lookup); case-variants of host names are not requested")
-	r.Assume("a token of a token@host entry containing ':' and a host named twice are open zones: rejecting is accepted, as is accepting with exactly the written binding / the first entry winning")
+	r.Assume("a host named twice in BUF_TOKEN is an open zone: rejecting is accepted, as is the first entry winning (a later entry winning is not). A token part of a token@host entry that contains the separator ':' is malformed (the property's quantifier lists ':' among the separators); a host-less token and a host may contain ':'")
+	r.Assume("netrc histories: operations name only registry hosts (never the words `default`, `machine` or an empty name) and files end with a newline, as every file written by refnetrc or by buf itself does")
 	r.Assume(".netrc files are the well-formed files written by refnetrc (machine/default, login, password keys); lexical corner cases of the third-party netrc parser (quotes, macdef, truncated files) are out of scope")
 	r.Assume("TLS is switched off (tls.use=false in config.yaml) in phase E so that loopback servers can stand in for registries; the address-to-URL mapping is otherwise the production one")
 
@@ -1058,7 +1062,14 @@ func run(r *evid.Run) {
 	// phase F runs first: it performs the most netrc lookups per second and the netrc library releases its
 	// file descriptors only through finalizers, which needs frequent collections, i.e. a small heap (see fdguard.go)
 	phaseWall := map[string]float64{}
+	only := os.Getenv("C19_PHASES") // development aid: comma-separated phase names; the run is then reported incomplete
+	if only != "" {
+		r.Incomplete("C19_PHASES is set: only phases " + only + " were run")
+	}
 	timed := func(name string, f func()) {
+		if only != "" && !contains(strings.Split(only, ","), name) {
+			return
+		}
 		t0 := time.Now()
 		f()
 		phaseWall[name] = float64(time.Since(t0).Milliseconds()) / 1000
@@ -1069,7 +1080,9 @@ func run(r *evid.Run) {
 	timed("S", func() { c.structuredEnv(kS) })
 	timed("C", func() { c.netrcSpace() })
 	timed("D", func() { c.chainSpace(kD, !r.Quick()) })
+	timed("G", func() { c.historyPhase(r.Quick()) })
 	timed("E", func() { c.e2eSpace(kE, netrcE) })
+	timed("G2", func() { c.historyCLIPhase(r.Quick()) })
 	if os.Getenv("C19_PHASE_WALL") != "" {
 		fmt.Fprintln(os.Stderr, "phase wall seconds:", phaseWall)
 	}
